@@ -84,11 +84,11 @@ def _ops(ctx, lib, cls):
     def series(name, n=N):
         return ctx.arr(name, n, -10.0, 10.0)
     O = {}
-    O['reset_values_same_length'] = lambda s: s.reset_values(series('new'))
+    O['reset_values_same_length'] = lambda s: s.reset_values(series('new%d' % s.npts, s.npts))
     O['reset_values_shorter'] = lambda s: s.reset_values(series('new6', 6))
     O['add_constant'] = lambda s: s.add_constant(ctx.real('c', -10.0, 10.0))
-    O['add_series'] = lambda s: s.add_series(series('ser'))
-    O['add_signal'] = lambda s: s.add_signal(lib.Signal(series('other'), DT))
+    O['add_series'] = lambda s: s.add_series(series('ser%d' % s.npts, s.npts))      # of the CURRENT length
+    O['add_signal'] = lambda s: s.add_signal(lib.Signal(series('other%d' % s.npts, s.npts), DT))
     O['remove_average'] = lambda s: s.remove_average()
     O['remove_poly'] = lambda s: s.remove_poly(poly_fit=1)
     O['running_average'] = lambda s: s.running_average(3)
